@@ -353,6 +353,12 @@ func genC13(h *H) {
 			} else {
 				mut("off-curve-x", func(b []byte) { copy(b[46:78], h.nonResidueX()) })
 				mut("x-ge-p", func(b []byte) { copy(b[46:78], be32(curveP)) })
+				for _, ov := range h.overP() {
+					for _, pfx := range []byte{2, 3} {
+						ovv, pp := ov, pfx
+						mut("x-over-p", func(b []byte) { b[45] = pp; copy(b[46:78], ovv) })
+					}
+				}
 			}
 			// checksum errors and lengths
 			b2 := append([]byte{}, bin...)
